@@ -64,7 +64,7 @@ def run(ck, prog, ctx):
     # ------------------------------------------------------------------ TABLE: header
     w = codec.header_writer(prog, pvn)
     r = codec.header_reader(prog, pvn)
-    if ck.anchor("TABLE", "Ontology::metadata_as_bytes (header writer)", w) and ck.anchor("TABLE", "parser::binary::ontology::version (header reader)", r):
+    if ck.anchor("TABLE", "Ontology::metadata_as_bytes (header writer)", w, private=True) and ck.anchor("TABLE", "parser::binary::ontology::version (header reader)", r, private=True):
         if not w["magic"] or not r["magic"]:
             ck.undecided("TABLE", "header/magic", "magic bytes not recognised (writer %s, reader %s)" % (w["magic"], r["magic"]))
         else:
@@ -202,7 +202,27 @@ def run(ck, prog, ctx):
                 at = pvn.of_operand(hv, t.args[1], (("f", i, "tuple"),))
                 if any(a[0] == "call" and a[1].endswith("from_be_bytes") for a in at):
                     tup.add(i)
-        ck.ob("COVER", "release-version", comps == {"0", "1", "2"} and tup == {"0", "1", "2"}, "writer serialises hpo_version components %s, reader restores components %s from the input" % (sorted(comps), sorted(tup)), where=hv.where())
+        if not tup and sets:
+            # the decoding may sit in a helper whose result is handed to set_hpo_version: inlined provenance
+            for t in sets:
+                for i in ("0", "1", "2"):
+                    at = pv.of_operand(hv, t.args[1], (("f", i, "tuple"),))
+                    if any(a[0] == "call" and a[1].endswith("from_be_bytes") for a in at):
+                        tup.add(i)
+        if not comps:
+            # the writer may receive the version as a parameter: components of the parameter, provided every caller passes the field
+            for pos, x in mw.positions():
+                ops = getattr(x, "ops", None) or getattr(x, "args", [])
+                for o in ops:
+                    if o.place is not None and 1 <= o.place.local <= mw.nargs and "u16, u8, u8" in mw.locals[o.place.local]["s"]:
+                        fs = [e for e in o.place.fields() if e != "*" and e[0] == "f"]
+                        callers_ok = all(any(a[0] == "field" and a[2] == "hpo_version" for a in pvn.of_operand(cb_, t_.args[o.place.local - 1])) for cb_, _, t_ in prog.callers_of(mw.id))
+                        if fs and callers_ok:
+                            comps.add(fs[0][1])
+        if not comps or not tup:
+            ck.undecided("COVER", "release-version", "the three components of the release version are not recognised on the %s side (writer %s, reader %s)" % ("writer" if not comps else "reader", sorted(comps), sorted(tup)), where=hv.where())
+        else:
+            ck.ob("COVER", "release-version", comps == {"0", "1", "2"} and tup == {"0", "1", "2"}, "writer serialises hpo_version components %s, reader restores components %s from the input" % (sorted(comps), sorted(tup)), where=hv.where())
 
     # ------------------------------------------------------------------ GUARD: narrowing casts
     W = {"u8": 8, "u16": 16, "u32": 32, "u64": 64, "usize": 64, "u128": 128, "i8": 8, "i16": 16, "i32": 32, "i64": 64, "isize": 64}
